@@ -393,6 +393,14 @@ def gen_history(rng: random.Random, prog, n_ops):
             untyped.append(nxt)
             nxt += 1
         elif scalars and rng.random() < 0.12:
+            # something unrelated that needs a newer default opset (18-21) is built; the reference request
+            # (opset 17, with If/Loop bodies holding nodes the adapter rewrites) must not notice
+            hist.append({"op": "construct", "k": rng.choice(["id19", "id21", "id19"]), "a": rng.choice(scalars)})
+            newer.append(nxt)
+            made.append(nxt)
+            hist.append({"op": "build_new", "outs": [nxt], "drop": True})
+            nxt += 1
+        elif scalars and rng.random() < 0.12:
             # inline a model, let the caller edit it in place (same byte size), inline the same object again
             k = rng.randrange(N_MODELS)
             for j in range(2):
